@@ -353,7 +353,7 @@ pub fn c16(cx: &mut Ctx) {
 const VERSIONS: [&str; 5] = ["HTTP/0.9", "HTTP/1.0", "HTTP/1.1", "HTTP/2.0", "HTTP/3.0"];
 
 pub fn c17(cx: &mut Ctx) {
-    let hosts: [&[(&str, &[u8])]; 4] = [&[], &[("host", b"h.test")], &[("host", b"h.test"), ("host", b"i.test")], &[("host", b"h\xfft")]];
+    let hosts: [&[(&str, &[u8])]; 5] = [&[], &[("host", b"h.test")], &[("host", b"h.test"), ("host", b"i.test")], &[("host", b"h\xfft")], &[("host", b"b\xc3\xbccher.test")]];
     let cls: [&[(&str, &[u8])]; 12] = [&[], &[("content-length", b"0")], &[("content-length", b"7")], &[("content-length", b"7"), ("content-length", b"7")], &[("content-length", b"-1")], &[("content-length", b"abc")], &[("content-length", b"+5")], &[("content-length", b"\xe9")],
         &[("content-length", b"")], &[("content-length", b"+")], &[("content-length", b"18446744073709551615")], &[("content-length", b"18446744073709551616")]];
     let tes: [&[(&str, &[u8])]; 3] = [&[], &[("transfer-encoding", b"chunked")], &[("transfer-encoding", b"\xff")]];
